@@ -373,7 +373,11 @@ func (s *Sim) Step(t *rapid.T) {
 	act := rapid.IntRange(0, 25).Draw(t, "act")
 	switch {
 	case act >= 24 && len(s.Byz) > 0 && !s.byzHasTwoThirds() && len(up) >= 2: // scripted lock-split attack on agreement
-		s.SplitAttack(t, up)
+		if rapid.Bool().Draw(t, "twolocks") {
+			s.TwoLocks(t, up)
+		} else {
+			s.SplitAttack(t, up)
+		}
 	case act >= 23 && s.byzHasTwoThirds(): // single-victim profile: scripted lock / round change / (un)lock sequence
 		s.LockDance(t, up)
 	case act >= 20: // scripted round with drawn visibility sets (makes lock / split states frequent)
@@ -1177,4 +1181,117 @@ func (s *Sim) SplitAttack(t *rapid.T, up []int) {
 // ByzVoteTo is the exported form of byzVoteTo: every Byzantine validator casts (typ, round, id) to each target at height h.
 func (s *Sim) ByzVoteTo(targets []int, typ kproto.SignedMsgType, round uint32, id types.BlockID, h uint64) {
 	s.byzVoteTo(targets, typ, round, id, h)
+}
+
+// TwoLocks scripts the state "two correct nodes locked on different blocks, each having missed the other's polka":
+// round r: everybody holds X, only A sees the polka (Byzantine prevotes for X shown to A) and locks; nobody decides.
+// round r+1: a proposer that is not locked offers Y; only C sees the polka for Y (Byzantine prevotes for Y shown to C)
+// and locks; A prevotes X. Everybody times out into round r+2. With correct unlock rules the polka for Y reaches A
+// later (a polka of a round it has already left) and releases it; the state is a liveness test for exactly that rule.
+func (s *Sim) TwoLocks(t *rapid.T, up []int) {
+	h := s.MinHeight(up)
+	var at []int
+	for _, i := range up {
+		if s.Nodes[i].CS.Height == h {
+			at = append(at, i)
+		}
+	}
+	if len(at) < 3 {
+		return
+	}
+	s.tracef("twolocks begin h=%d nodes=%v", h, at)
+	s.fireIfStep(at, "RoundStepNewHeight", "RoundStepNewRound")
+	r := s.Nodes[at[0]].CS.Round
+	for _, i := range at {
+		if s.Nodes[i].CS.Round != r || s.Nodes[i].CS.Height != h {
+			s.tracef("twolocks: nodes not aligned")
+			return
+		}
+	}
+	proposeAll := func(round uint32) types.BlockID {
+		s.relayKind("proposal", at, at)
+		ref := s.Nodes[at[0]].CS
+		if prop := ref.Validators.GetProposer(); prop != nil {
+			if b := s.genesisIndexOf(prop.Address); b >= 0 && s.Nodes[b] == nil {
+				if c := s.MakeCand(at[0], (b+int(round))%len(s.Keys), 0, ""); c != nil {
+					p := s.SignProposal(b, h, round, 0, c.ID)
+					for _, j := range at {
+						s.send(j, b, &consensus.ProposalMessage{Proposal: p})
+						for k := 0; k < int(c.Parts.Total()); k++ {
+							s.send(j, b, &consensus.BlockPartMessage{Height: h, Round: round, Part: c.Parts.GetPart(k)})
+						}
+						s.DrainOwn(j)
+					}
+				}
+			}
+		}
+		s.fireIfStep(at, "RoundStepPropose")
+		var id types.BlockID
+		cnt := map[string]int{}
+		for _, i := range at {
+			cs := s.Nodes[i].CS
+			if cs.Height == h && cs.ProposalBlock != nil && cs.ProposalBlockParts != nil && cs.ProposalBlockParts.IsComplete() {
+				k := types.BlockID{Hash: cs.ProposalBlock.Hash(), PartsHeader: cs.ProposalBlockParts.Header()}
+				cnt[ExactKey(k)]++
+				if cnt[ExactKey(k)] >= len(at)-1 {
+					id = k
+				}
+			}
+		}
+		return id
+	}
+	A := rapid.SampledFrom(at).Draw(t, "tlA")
+	X := proposeAll(r)
+	if X.IsZero() {
+		s.tracef("twolocks: no common proposal in round %d", r)
+		return
+	}
+	// only A sees the polka for X
+	s.byzVoteTo([]int{A}, kproto.PrevoteType, r, X, h)
+	s.relayKind("prevotes", []int{A}, at)
+	var rest []int
+	for _, i := range at {
+		if i != A {
+			rest = append(rest, i)
+		}
+	}
+	s.byzVoteTo(rest, kproto.PrevoteType, r, types.BlockID{}, h)
+	for _, i := range rest {
+		s.relayKind("prevotes", []int{i}, []int{rest[0], A})
+	}
+	s.fireIfStep(at, "RoundStepPrevoteWait")
+	s.byzVoteTo(at, kproto.PrecommitType, r, types.BlockID{}, h)
+	s.relayKind("precommits", at, at)
+	s.fireIfStep(at, "RoundStepPrecommitWait")
+	for _, i := range at {
+		if s.Nodes[i].CS.Height != h || s.Nodes[i].CS.Round != r+1 {
+			s.tracef("twolocks: round %d did not end as planned (%s)", r, s.Describe(at))
+			return
+		}
+	}
+	// round r+1: Y from an unlocked proposer, only C sees its polka
+	Y := proposeAll(r + 1)
+	if Y.IsZero() || ExactKey(Y) == ExactKey(X) {
+		s.tracef("twolocks: no second block in round %d", r+1)
+		return
+	}
+	C := rapid.SampledFrom(rest).Draw(t, "tlC")
+	s.byzVoteTo([]int{C}, kproto.PrevoteType, r+1, Y, h)
+	s.relayKind("prevotes", []int{C}, at)
+	var others []int
+	for _, i := range at {
+		if i != C {
+			others = append(others, i)
+		}
+	}
+	s.byzVoteTo(others, kproto.PrevoteType, r+1, types.BlockID{}, h)
+	for _, i := range others {
+		s.relayKind("prevotes", []int{i}, []int{others[0]})
+	}
+	s.fireIfStep(at, "RoundStepPrevoteWait")
+	s.byzVoteTo(at, kproto.PrecommitType, r+1, types.BlockID{}, h)
+	s.relayKind("precommits", at, at)
+	s.fireIfStep(at, "RoundStepPrecommitWait")
+	s.Stat["two-locks"]++
+	s.tracef("twolocks end: %s", s.Describe(at))
 }
